@@ -110,12 +110,12 @@ static void checkC17(Ctx& c, long idx, Rng& r) {
     if (cls == 3) { nBuiltinCached = std::max(1, nBuiltinCached); }
     auto body = [&](int k) -> MobilizedBody& { return m.bodies[k]; };
     for (int k = 0; k < nBuiltinCached; ++k) {
-        int a = r.integer(0, nb - 1), b = r.integer(0, nb - 1);
+        int a = r.integer(0, nb - 1), b = (a + r.integer(1, nb - 1)) % nb;   // distinct bodies: a same-body pair cancels to a net 0 whose rounding scale is invisible
         if (r.coin(0.7)) { Elem e{Force::TwoPointLinearSpring(m.forces, body(a), randVec3(r, .5), body(b), randVec3(r, .5), r.uni(1, 20), r.uni(0, 1)), false, {}, "TwoPointLinearSpring"}; el.push_back(e); }
         else { Elem e{Force::TwoPointConstantForce(m.forces, body(a), randVec3(r, .5), body(b), randVec3(r, .5), r.sym(5)), false, {}, "TwoPointConstantForce"}; el.push_back(e); }
     }
     for (int k = 0; k < nBuiltinVel; ++k) {
-        int a = r.integer(0, nb - 1), b = r.integer(0, nb - 1);
+        int a = r.integer(0, nb - 1), b = (a + r.integer(1, nb - 1)) % nb;
         if (r.coin(0.5)) { Elem e{Force::TwoPointLinearDamper(m.forces, body(a), randVec3(r, .5), body(b), randVec3(r, .5), r.uni(0.1, 3)), false, {}, "TwoPointLinearDamper"}; el.push_back(e); }
         else { Elem e{Force::GlobalDamper(m.forces, m.matter, r.uni(0.1, 2)), false, {}, "GlobalDamper"}; el.push_back(e); }
     }
@@ -194,6 +194,10 @@ static void checkC17(Ctx& c, long idx, Rng& r) {
                 if (uf) uf->d.dwellUs = sd;
                 for (int b = 0; b < bf.size(); ++b) { sumF[b] += bf[b]; for (int a = 0; a < 2; ++a) for (int x = 0; x < 3; ++x) absF[b][a][x] += std::fabs(bf[b][a][x]); }
                 for (int j = 0; j < mf.size(); ++j) { sumf[j] += mf[j]; absf[j] += std::fabs(mf[j]); }
+                if (uf) {   // scale floor: +f and -f may hit the same body (net 0, rounding scale |f|)
+                    Vec3 fr = UForce::realPart(uf->d, s);
+                    for (int x = 0; x < 3; ++x) { absF[uf->d.b1][1][x] += std::fabs(fr[x]); absF[uf->d.b2][1][x] += std::fabs(fr[x]); absF[uf->d.b2][0][x] += std::fabs(fr[x]); }
+                }
             }
             (void)saveP;
             double worst = 0, tolAt = 1; int wb = -1;
